@@ -1,21 +1,16 @@
 #!/bin/bash
-# seeds.sh: applies every confirmed seeded change (seeded/<id>-<n>/patch.diff) to /repo's
-# working tree in turn, runs all checks in one process, restores /repo, and records which
+# seeds.sh: analyses /repo with every confirmed seeded change (seeded/<id>-<n>/patch.diff) applied
+# as an overlay (the tree is not modified), runs all checks in one process, and records which
 # properties/rules report. Writes seeded/RESULTS.json and seeded/RESULTS.md.
 set -u
 cd /verif
 export GOFLAGS=-mod=mod GOPROXY=off GOSUMDB=off GOTOOLCHAIN=local; unset GOWORK
-[ -n "$(git -C /repo status --porcelain)" ] && { echo "/repo is not clean"; exit 2; }
 python3 - <<'PY'
 import json,subprocess,os,re,glob
 res={}
 for d in sorted(glob.glob('/verif/seeded/C*-[0-9]')):
     sid=os.path.basename(d); pid=sid.split('-')[0]
-    subprocess.run(['git','-C','/repo','apply',d+'/patch.diff'],check=True)
-    try:
-        out=subprocess.run(['/verif/bin/crsverif','-property','ALL','-repo','/repo','-verif','/verif','-no-evidence'],capture_output=True,text=True).stdout
-    finally:
-        subprocess.run(['git','-C','/repo','checkout','-q','--','.']); subprocess.run(['git','-C','/repo','clean','-fdq'])
+    out=subprocess.run(['/verif/bin/crsverif','-property','ALL','-repo','/repo','-verif','/verif','-no-evidence','-patch',d+'/patch.diff'],capture_output=True,text=True).stdout
     cur=None; rep={}
     for l in out.splitlines():
         m=re.match(r'PROP (\S+) REPORTS',l)
